@@ -184,7 +184,15 @@ def check(ctx):
     ok = ua is not None and "self.aliases" in unparse(ua)
     ctx.ob("R4", f"{CC}:CommandsCache._update_aliases_cache", "the alias checksum is computed from the live alias table", ok, key="aliases|checksum")
     up = ms.get("_update_paths_cache")
-    ok = up is not None and "os.path.getmtime" in unparse(up) and ".mtime != modified_time" in unparse(up)
+    ok = False
+    if up is not None:
+        MT = names_bound_to_call(up, lambda nm_: nm_ == "os.path.getmtime")
+        # a comparison `<remembered>.mtime != <fresh mtime>` (either order, != or `not ==`) decides the re-listing
+        for n_ in ast.walk(up):
+            if isinstance(n_, ast.Compare) and len(n_.ops) == 1 and isinstance(n_.ops[0], (ast.NotEq, ast.Eq)):
+                sides = [unparse(n_.left), unparse(n_.comparators[0])]
+                if any(x in MT for x in sides) and any(x.endswith(".mtime") for x in sides):
+                    ok = True
     ctx.ob("R4", f"{CC}:CommandsCache._update_paths_cache", "a directory is re-listed when its mtime differs from the remembered one", ok, key="paths|mtime-compare")
     del src
 
